@@ -7,6 +7,7 @@ run_driver: one matching run of a family under one run configuration (package AP
   bare or inside try/catch; deadline in hooked steps) with step / stack / poll / late-step counting through the guarded hook.
 fold_batch: case-insensitive matching of short subjects with special-casing characters through the API and six script operations.
 The drivers only record outcome codes and counts; spec/C10.tla judges."""
+import sys
 import time
 from harness import wire
 from harness.drivers import CLASSIFY_JS
@@ -192,12 +193,54 @@ class Counter:
         self.attempts = 0
         self.maxstack = 0
         self.total = 0
+        # steps per activation as the observer counts them (not the matcher's own step_count): an activation of the matcher loop
+        # is one host frame of the function that calls the hook; acts = the activations in progress, innermost last
+        self.own = {"re": 0, "la": 0, "lb": 0}
+        self.acts = []                 # [frame, kind, hook calls]
+        self.depth = None              # host frames between this observer and the matcher loop (found at the first step)
+
+    def activation(self, kind):
+        if self.depth is None:
+            f, d = sys._getframe(2), 2
+            while f is not None and not f.f_code.co_filename.replace("\\", "/").endswith("regex/vm.py"):
+                f, d = f.f_back, d + 1
+            self.depth = d if f is not None else -1
+        if self.depth < 0:
+            return
+        f = sys._getframe(self.depth)
+        acts = self.acts
+        if acts and acts[-1][0] is f:
+            acts[-1][2] += 1
+        else:
+            k = len(acts) - 1
+            while k >= 0 and acts[k][0] is not f:
+                k -= 1
+            if k >= 0:                 # the runs nested in f have returned
+                del acts[k + 1:]
+                acts[k][2] += 1
+            else:                      # a new run: forget the runs that are over (their frames are not among the callers of f)
+                chain, g = set(), f.f_back
+                while g is not None:
+                    chain.add(id(g))
+                    g = g.f_back
+                while acts and id(acts[-1][0]) not in chain:
+                    acts.pop()
+                acts.append([f, kind, 1])
+        if acts[-1][2] > self.own[kind]:
+            self.own[kind] = acts[-1][2]
+
+    def finish(self):
+        del self.acts[:]
+        if self.depth is None or self.depth < 0:
+            return {"re": -1, "la": -1, "lb": -1} if self.total else dict(self.own)
+        return dict(self.own)
 
     def __call__(self, kind, vm, pc, sp, stacklen, step_count):
         if kind not in self.steps:
             return
         self.steps[kind] += 1
         self.total += 1
+        self.activation(kind)
         if step_count + 1 > self.maxstep[kind]:
             self.maxstep[kind] = step_count + 1
         if kind == "re" and step_count == 0:
@@ -297,7 +340,8 @@ def run_driver(case, api):
             out_code, ty = out["o"], str(out.get("type", out.get("name", "")))
     api.steps.user = None
     return {"id": case["id"], "out": out_code, "ty": ty, "attempts": cnt.attempts, "steps": cnt.steps, "maxstep": cnt.maxstep,
-            "maxstack": cnt.maxstack, "polls": polls[0], "late": late, "len": len(subject), "where": str(out.get("where", ""))}
+            "maxstack": cnt.maxstack, "polls": polls[0], "late": late, "len": len(subject), "where": str(out.get("where", "")),
+            "own": cnt.finish()}
 
 
 FOLD_JS = {
@@ -349,4 +393,69 @@ def fold_batch(case, api):
             outs.append(code)
             tys.append(ty)
         res.append({"id": it["id"], "out": outs, "ty": tys})
+    return res
+
+
+POS_OPS_JS = {
+    "exec": "R.exec(S)", "test": "R.test(S)", "match": "S.match(R)", "search": "S.search(R)", "replace": "S.replace(R, '-')",
+    "replaceAll": "S.replaceAll(R, '-')", "split": "S.split(R)",
+}
+POS_ONE = ("function __one(i, j) { var R; try { R = new RegExp(P, F); } catch (e) { __rep(i, j, 'rejected', 0, 0); return; } "
+           "var before, code; try { LIS[i](R, S); before = R.lastIndex; var v = OPS[j](R, S); "
+           "code = v === null ? 'null' : v === false ? 'false' : v === true ? 'true' : 'v'; } catch (e) { code = 'caught:' + __cls(e); } "
+           "__rep(i, j, code, before, R.lastIndex); } "
+           "function __all() { for (var i = 0; i < LIS.length; i++) for (var j = 0; j < OPS.length; j++) __one(i, j); }")
+
+
+def pos_batch(case, api):
+    """Matching from a given state of the RegExp object.  case = {id, lis: [{name, pre, js}], ops: [...], items: [{id, src, fl, subj}]}
+    -> per item a matrix out[li][op] of outcome codes (+ ty: error class / host exception and site; li_seen: lastIndex before and
+    after the call where it is a small integer, recorded only).  All (lastIndex, op) pairs of an item run in one call `__all()`,
+    each pair in its own try/catch; whenever that call does not end with every report (a foreign exception ends the script) each
+    pair is evaluated on its own as `__one(i, j)`."""
+    ctx = api.new_context(time_limit=None)
+    got = {}
+
+    def small(v):
+        return int(v) if isinstance(v, (int, float)) and not isinstance(v, bool) and v == v and abs(v) < 2**31 and int(v) == v else -1
+
+    def rep_(i, j, code, before, after):
+        got[(small(i), small(j))] = (str(code), small(before), small(after))
+    ctx.set("__rep", rep_)
+    api.eval_outcome(ctx, CLASSIFY_JS, wall=10.0)
+    lis, ops = case["lis"], case["ops"]
+    setup = ("var LIS = [" + ", ".join("function (R, S) { %s %s }" % (li["pre"], ("R.lastIndex = " + li["js"] + ";") if li["js"] else "") for li in lis) + "]; "
+             + "var OPS = [" + ", ".join("function (R, S) { return %s; }" % POS_OPS_JS[op] for op in ops) + "]; " + POS_ONE)
+    o = api.eval_outcome(ctx, setup, wall=20.0)
+    if o["o"] != "value":
+        raise RuntimeError("could not define the position-grid functions: %r" % (o,))
+    res = []
+    for it in case["items"]:
+        ctx.set("P", wire.from_units(it["src"]))
+        ctx.set("F", wire.from_units(it["fl"]))
+        ctx.set("S", wire.from_units(it["subj"]))
+        got.clear()
+        out = api.eval_outcome(ctx, "__all()", wall=60.0, cap=5_000_000)
+        whole = out["o"] == "value" and len(got) == len(lis) * len(ops)
+        outs, tys, seen = [], [], []
+        for i in range(len(lis)):
+            ro, rt, rs = [], [], []
+            for j in range(len(ops)):
+                if not whole:
+                    got.pop((i, j), None)
+                    out = api.eval_outcome(ctx, "__one(%d, %d)" % (i, j), wall=20.0, cap=2_000_000)
+                    if out["o"] != "value":
+                        ro.append("jserror" if out["o"] in ("jserror", "memlimit") else out["o"])
+                        rt.append("%s @ %s" % (out.get("type"), out.get("where")) if out["o"] == "host" else str(out.get("name", "")))
+                        rs.append([-1, -1])
+                        continue
+                g = got.get((i, j))
+                if g is None:
+                    ro.append("noresult"); rt.append(""); rs.append([-1, -1])
+                elif g[0].startswith("caught:"):
+                    ro.append("caught"); rt.append(g[0][7:]); rs.append([g[1], g[2]])
+                else:
+                    ro.append(g[0]); rt.append(""); rs.append([g[1], g[2]])
+            outs.append(ro); tys.append(rt); seen.append(rs)
+        res.append({"id": it["id"], "out": outs, "ty": tys, "li_seen": seen, "whole": whole})
     return res
